@@ -26,11 +26,14 @@ PROPERTY = 'C19'
 LEVEL = 'exploration'
 RULE = ('cases: (shape) uid shape x logger kind x message/argument shape x MAC placement on '
         'the capture layer (initialize_record_handler / get_record_logger_for) and on whole '
-        'Test runs (test.logger, plug logger, state logger, framework logger); (sched) run B\'s '
-        'logging thread paused at every reached line of openhtf/util/logs.py while run A '
-        'ends / starts / logs, then released; (stress) two runs logging from 2-3 threads each '
+        'Test runs (test.logger, plug logger, state logger, framework logger); (sched) a thread '
+        'that logs through run B / ends run B / starts a run is paused at every reached line '
+        'of openhtf/util/logs.py while another run ends / starts / logs, then released, and '
+        'every run still open logs once more; (stress) two runs logging from 2-3 threads each '
         'under seeded yield injection while further runs start and end; (seq) 1-20 '
-        'consecutive runs counting handlers; distinct = distinct case; non-trivial = at least '
+        'consecutive runs counting handlers; (exec_sched) a whole Test run whose executor thread '
+        'is held 150 ms at each line it reaches while the main thread runs on, a tap on the '
+        'openhtf logger telling what the run\'s own threads emitted; distinct = distinct case; non-trivial = at least '
         'one emitted message id was looked up in a record')
 ASSUMPTIONS = [
     'a MAC address is six colon-separated hex octets in either case, delimited by non-word characters',
@@ -91,8 +94,11 @@ def enumerated(tier):
   for shape in MSG_SHAPES:
     yield {'k': 'test', 'shape': shape}
   for action in ('end_a', 'start_c', 'log_a', 'end_a_end_c'):
-    for idx in range(60):
-      yield {'k': 'sched', 'action': action, 'idx': idx}
+    for op in ('log', 'close', 'start'):
+      for idx in range(60):
+        yield {'k': 'sched', 'action': action, 'op': op, 'idx': idx}
+  for idx in range(0, 900, 2 if tier == 'quick' else 1):
+    yield {'k': 'exec_sched', 'idx': idx}
   for n in (1, 2, 5, 20):
     yield {'k': 'seq', 'n': n, 'mode': 'layer'}
     yield {'k': 'seq', 'n': min(n, 5), 'mode': 'test'}
@@ -400,38 +406,50 @@ _POINTS = {}
 
 
 def run_sched(case):
-  """Run B's logging thread is paused inside logs.py while another run acts."""
+  """Thread LB is paused inside logs.py while it logs through run B, closes
+  run B or starts a new run; meanwhile another run ends / starts / logs.
+  After the release every run still open logs one more message (a handler lost
+  in the overlap shows as a lost message), then all runs are closed and a
+  framework message is emitted (a handler re-installed by the overlap shows as
+  a left-behind handler / a finished record still growing)."""
   eng = _S['engine']
   viol, c = [], new_counters()
   action = case['action']
+  op = case.get('op', 'log')
 
   def scenario(target):
     a, b = Run('runA'), Run('runB')
-    extra = []
-    expected_b, expected_a = [], []
+    runs = {'A': a, 'B': b}
+    exp = {'A': [], 'B': [], 'C': [], 'D': []}
 
-    def log_b():
-      for _ in range(2):
-        expected_b.append(emit(b.logger.getChild('phase.p'), 'percent_args',
+    def paused_op():
+      if op == 'log':
+        for _ in range(2):
+          exp['B'].append(emit(b.logger.getChild('phase.p'), 'percent_args',
                                next(_S['ids'])))
+      elif op == 'close':
+        exp['B'].append(emit(b.logger, 'plain', next(_S['ids'])))
+        b.close()
+      else:   # start: a new run begins on this thread and logs at once
+        runs['D'] = Run('runD')
+        exp['D'].append(emit(runs['D'].logger, 'plain', next(_S['ids'])))
 
     def act():
-      if action == 'end_a':
+      if action in ('end_a', 'end_a_end_c'):
         a.close()
       elif action == 'start_c':
-        extra.append(Run('runC'))
+        runs['C'] = Run('runC')
+        exp['C'].append(emit(runs['C'].logger, 'plain', next(_S['ids'])))
       elif action == 'log_a':
-        expected_a.append(emit(a.logger, 'plain', next(_S['ids'])))
-      elif action == 'end_a_end_c':
-        a.close()
+        exp['A'].append(emit(a.logger, 'plain', next(_S['ids'])))
 
     if action == 'end_a_end_c':
-      extra.append(Run('runC'))
+      runs['C'] = Run('runC')
     eng.arm(target)
     eng.enabled = True
     info = {'reached': False, 'blocked': False}
     try:
-      tb = threading.Thread(target=log_b, name='LB')
+      tb = threading.Thread(target=paused_op, name='LB')
       tb.start()
       if target is not None:
         r = eng.run_action_at_pause(act, wait_s=5, hold_s=0.2)
@@ -444,42 +462,53 @@ def run_sched(case):
     finally:
       eng.enabled = False
       eng.release()
-    if action == 'end_a_end_c':
-      extra[0].close()
-    return a, b, extra, expected_a, expected_b, info
+    # every run still open must still capture
+    for key, r in sorted(runs.items()):
+      if r.open:
+        exp[key].append(emit(r.logger.getChild('phase.late'), 'plain',
+                             next(_S['ids'])))
+    return runs, exp, info
 
-  if action not in _POINTS:
-    a, b, extra, ea, eb, _ = scenario(None)
-    _POINTS[action] = eng.points(max_hits=2)
-    for r in [a, b] + extra:
+  def close_all(runs):
+    for r in runs.values():
       if r.open:
         r.close()
-  pts = _POINTS[action]
+
+  pkey = (action, op)
+  if pkey not in _POINTS:
+    runs, _, _ = scenario(None)
+    _POINTS[pkey] = eng.points(max_hits=2)
+    close_all(runs)
+  pts = _POINTS[pkey]
   if case['idx'] >= len(pts):
     return {'sig': None, 'violations': [], 'counters': c, 'evaluations': 0,
             'sample': False}
   target = pts[case['idx']]
-  before = len(record_handlers())
-  a, b, extra, expected_a, expected_b, info = scenario(target)
-  ctx = {'action': action, 'point': [list(target[0]), target[1]],
-         'blocked': info['blocked']}
+  runs, exp, info = scenario(target)
+  ctx = {'action': action, 'paused_op': op,
+         'point': [list(target[0]), target[1]], 'blocked': info['blocked']}
   c['schedules_paused'] += 1 if info['reached'] else 0
-  c['messages_emitted'] += len(expected_a) + len(expected_b)
-  judge_record(b.rec.log_records, expected_b, expected_a, viol, c,
-               dict(ctx, view='run B'))
-  judge_record(a.rec.log_records, expected_a, expected_b, viol, c,
-               dict(ctx, view='run A'))
-  for x in extra:
-    judge_record(x.rec.log_records, [], expected_a + expected_b, viol, c,
-                 dict(ctx, view='run C'))
-  for r in [a, b] + extra:
-    if r.open:
-      r.close()
+  c['messages_emitted'] += sum(len(v) for v in exp.values())
+  for key, r in sorted(runs.items()):
+    foreign = [e for k, v in exp.items() if k != key for e in v]
+    judge_record(r.rec.log_records, exp[key], foreign, viol, c,
+                 dict(ctx, view='run ' + key))
+  close_all(runs)
   c['handler_counts_checked'] += 1
-  if len(record_handlers()) != before - 0 and len(record_handlers()) != 0:
+  left = record_handlers()
+  if left:
     viol.append({'mechanism': 'record-handler-left-behind',
-                 'detail': dict(ctx, count=len(record_handlers()))})
-  return {'sig': ['sched', action, list(target[0]), target[1]],
+                 'detail': dict(ctx, count=len(left),
+                                uids=[str(h.test_uid) for h in left])})
+    htf_logger = logging.getLogger('openhtf')
+    htf_logger.handlers = [h for h in htf_logger.handlers if h not in left]
+  sizes = {k: len(r.rec.log_records) for k, r in runs.items()}
+  logging.getLogger('openhtf.core.after').warning('after all runs ended')
+  grown = [k for k, r in runs.items() if len(r.rec.log_records) != sizes[k]]
+  if grown:
+    viol.append({'mechanism': 'finished-record-still-growing',
+                 'detail': dict(ctx, runs=grown)})
+  return {'sig': ['sched', action, op, list(target[0]), target[1]],
           'violations': viol, 'counters': c}
 
 
@@ -576,6 +605,78 @@ def run_seq(case):
   return {'sig': case, 'violations': viol, 'counters': c}
 
 
+_EXEC_POINTS = []
+
+
+def run_exec_sched(case):
+  """Whole Test run; the executor thread is held 150 ms at a line it reaches
+  (first hit) while the main thread runs on.  A tap on the 'openhtf' logger
+  records what the run's own framework threads emit; every such message must
+  be in the run's record exactly once (e.g. the executor's last message must
+  not be emitted after the record handler was removed)."""
+  from vf import abortlab
+  from vf.props import c04
+  abortlab.lab()
+  viol, c = [], new_counters()
+  prog, cfg = c04.FAMILY[0]
+  if not _EXEC_POINTS:
+    d = abortlab.run(prog, cfg, target=None)
+    for key, n in sorted(d['seen'].items()):
+      if key[0] == 'exec':
+        _EXEC_POINTS.append((key, 1))
+        if n > 1:
+          _EXEC_POINTS.append((key, n))     # last hit
+  if case['idx'] >= len(_EXEC_POINTS):
+    return {'sig': None, 'violations': [], 'counters': c, 'evaluations': 0,
+            'sample': False}
+  target = _EXEC_POINTS[case['idx']]
+  tap = []
+
+  class Tap(logging.Handler):
+    def emit(self, record):
+      try:
+        tap.append((threading.current_thread().name, record.getMessage()))
+      except Exception:  # pylint: disable=broad-except
+        pass
+
+  h = Tap(level=logging.DEBUG)
+  lg = logging.getLogger('openhtf')
+  lg.addHandler(h)
+  try:
+    obs = abortlab.run(prog, cfg, target=target, action='hold')
+    pm.settle()     # the tap stays until the run's executor thread is gone
+  finally:
+    lg.removeHandler(h)
+  if not obs['info']['reached'] or not obs['recs'] or obs['hang']:
+    return {'sig': None, 'violations': [], 'counters': {'pause_not_reached': 1}}
+  rec = obs['recs'][0]
+  c['schedules_paused'] += 1
+  c['records_judged'] += 1
+  recorded = {}
+  for r in rec.log_records:
+    recorded[r.message] = recorded.get(r.message, 0) + 1
+  emitted = {}
+  for th, msg in tap:
+    emitted[msg] = emitted.get(msg, 0) + 1
+  own = [(th, msg) for th, msg in tap if th.startswith('TestExecutorThread')
+         or 'PhaseExecutorThread' in th]
+  c['messages_emitted'] += len(own)
+  for th, msg in own:
+    c['messages_looked_up'] += 1
+    if recorded.get(msg, 0) != emitted[msg]:
+      viol.append({'mechanism': 'framework-message-%s' % (
+          'lost' if recorded.get(msg, 0) < emitted[msg] else
+          'recorded-more-than-once'),
+                   'detail': {'thread': th, 'message': msg[:100],
+                              'emitted': emitted[msg],
+                              'recorded': recorded.get(msg, 0),
+                              'executor_held_at': [list(target[0]), target[1]]}})
+      break
+  return {'sig': ['exec_sched', list(target[0]), target[1]], 'violations': viol,
+          'counters': c}
+
+
 def run_case(case):
   return {'shape': run_shape, 'test': run_test, 'sched': run_sched,
-          'stress': run_stress, 'seq': run_seq}[case['k']](case)
+          'stress': run_stress, 'seq': run_seq,
+          'exec_sched': run_exec_sched}[case['k']](case)
